@@ -1,11 +1,38 @@
 #!/venv/bin/python
 """every behaviour-preserving variant against *all* properties (a refactoring of one function is seen by every property
-anchored in that file).  usage: crosscheck.py [-j N] <dir with patch.diff> ...   expected: rc 0 for every property"""
+anchored in that file).  A variant is run against the properties that read a file it touches (READS below; CROSSCHECK_ALL=1: against all twenty).
+usage: crosscheck.py [-j N] <dir with patch.diff> ...   expected: rc 0 for every property"""
 import concurrent.futures, os, shutil, subprocess, sys, tempfile
 args = sys.argv[1:]
 jobs = 16
 if args[:1] == ['-j']:
     jobs = int(args[1]); args = args[2:]
+
+
+# which properties read which source files (directly, or through the modules their evaluator worlds load): a variant is run against
+# every property that reads a file it touches; a file that is not listed here concerns all of them
+READS = {
+    'lib/debian/_deb822_repro/parsing.py': ['C01', 'C05', 'C10', 'C11'], 'lib/debian/_deb822_repro/tokens.py': ['C01', 'C05', 'C10', 'C11'],
+    'lib/debian/_deb822_repro/_util.py': ['C01', 'C05', 'C10', 'C11'], 'lib/debian/_deb822_repro/formatter.py': ['C01', 'C05', 'C10', 'C11'],
+    'lib/debian/_deb822_repro/types.py': ['C01', 'C05', 'C10', 'C11'], 'lib/debian/_deb822_repro/locatable.py': ['C01', 'C05', 'C10', 'C11'],
+    'lib/debian/_util.py': ['C01', 'C02', 'C05', 'C08', 'C09', 'C10', 'C11', 'C12', 'C13', 'C17'],
+    'lib/debian/deb822.py': ['C02', 'C08', 'C09', 'C12', 'C13', 'C17', 'C07', 'C16'],
+    'lib/debian/debian_support.py': ['C03', 'C04', 'C14', 'C15', 'C18', 'C19'], 'lib/debian/changelog.py': ['C04', 'C15'],
+    'lib/debian/arfile.py': ['C06', 'C07'], 'lib/debian/debfile.py': ['C07'], 'lib/debian/copyright.py': ['C16', 'C17'], 'lib/debian/debtags.py': ['C20'],
+}
+ALL = os.environ.get('CROSSCHECK_ALL') == '1'
+
+
+def related(patch):
+    if ALL:
+        return None
+    files = [l[6:].strip() for l in open(patch, encoding='utf-8', errors='replace') if l.startswith('+++ b/')]
+    out = set()
+    for f_ in files:
+        if f_ not in READS:
+            return None
+        out |= set(READS[f_])
+    return sorted(out)
 
 
 def one(d):
@@ -16,9 +43,17 @@ def one(d):
         if r.returncode:
             return d, 'PATCH DOES NOT APPLY', []
         env = dict(os.environ, SA_REPO=tmp, SA_EVIDENCE=os.path.join(tmp, 'ev'))
-        r = subprocess.run(['/venv/bin/python', '/verif/sa/run.py', '--all'], env=env, capture_output=True, text=True)
-        bad = [l for l in r.stdout.splitlines() if l.startswith(('FAIL', 'ANALYSIS-ERROR'))]
-        return d, r.returncode, bad
+        props = related(os.path.join(d, 'patch.diff'))
+        if props is None:
+            r = subprocess.run(['/venv/bin/python', '/verif/sa/run.py', '--all'], env=env, capture_output=True, text=True)
+            bad = [l for l in r.stdout.splitlines() if l.startswith(('FAIL', 'ANALYSIS-ERROR'))]
+            return d, r.returncode, bad
+        worst, bad = 0, []
+        for q in props:
+            r = subprocess.run(['/venv/bin/python', '/verif/sa/run.py', '--property', q], env=env, capture_output=True, text=True)
+            worst = max(worst, r.returncode)
+            bad += [l for l in r.stdout.splitlines() if l.startswith(('FAIL', 'ANALYSIS-ERROR'))]
+        return d, worst, bad
     finally:
         shutil.rmtree(tmp)
 
